@@ -35,6 +35,32 @@ def constants(exprs):
     return consts, funcs
 
 
+XCHECK = {"on": False, "bin": "z3-new", "done": 0, "agree": 0, "other_unknown": 0, "disagree": []}
+
+
+def cross_check(solver, verdict):
+    """Second, independent z3 generation (5.1.0 binary) re-decides the SMT-LIB dump of a query.
+    A definite disagreement is reported; unknown/timeouts of the second solver are only counted."""
+    import subprocess
+
+    try:
+        text = solver.to_smt2()
+        p = subprocess.run([XCHECK["bin"], "-in", "-T:20"], input=text, capture_output=True, text=True, timeout=40)
+        out = (p.stdout or "").strip().splitlines()
+        ans = out[0].strip() if out else "error"
+    except Exception as e:  # noqa
+        ans = "error"
+    XCHECK["done"] += 1
+    if "(error" in (p.stdout if "p" in dir() else ""):
+        ans = "error"
+    if ans == verdict:
+        XCHECK["agree"] += 1
+    elif ans in ("sat", "unsat"):
+        XCHECK["disagree"].append((verdict, ans, text[:300]))
+    else:
+        XCHECK["other_unknown"] += 1
+
+
 def solve(assertions, timeout_ms=60000, want_model=True):
     s = z3.Solver()
     s.set("timeout", timeout_ms)
@@ -45,6 +71,8 @@ def solve(assertions, timeout_ms=60000, want_model=True):
     STATS["queries"] += 1
     STATS["solver_s"] += dt
     STATS[str(r)] += 1
+    if XCHECK["on"] and r != z3.unknown:
+        cross_check(s, str(r))
     if r == z3.sat:
         return "sat", (s.model() if want_model else None), dt
     return str(r), None, dt
